@@ -84,8 +84,10 @@ func init() {
 			return
 		}
 		if cur.Panic != "" {
-			// the fallback is the only part of SearchUniversal that can index out of range (NUL in a target)
-			mon.Hit("C07", "fuzzy-panic", c07Detail(cur, map[string]interface{}{"panic": cur.Panic}))
+			// the matcher indexes past the pattern when a target contains NUL (other panics are C10's subject)
+			if strings.Contains(cur.Panic, "index out of range") {
+				mon.Hit("C07", "fuzzy-panic", c07Detail(cur, map[string]interface{}{"panic": cur.Panic}))
+			}
 			return
 		}
 		off, offPanicked := offAnswer(cur)
